@@ -29,7 +29,7 @@ def run(c):
 
     def one(pn):
         p, nt = pn
-        return p, nt, c.record(bins[p - 1], [], env={"OMP_NUM_THREADS": nt}, out=c.path("prims-%d-%d.ndjson" % (p, nt)))
+        return p, nt, c.record(bins[p - 1], [], env={"OMP_NUM_THREADS": nt, "OMP_WAIT_POLICY": "passive"}, out=c.path("prims-%d-%d.ndjson" % (p, nt)))
     traces = c.parallel([lambda pn=pn: one(pn) for pn in runs], max_workers=6)
 
     def val(t):
